@@ -398,3 +398,170 @@ Proof.
       { replace (Z.of_nat (c + length q) + 1) with (Z.of_nat (S (c + length q))) by lia. rewrite HP. lia. }
       rewrite E, IH1. split; [cbn [app]; do 3 f_equal; lia|lia].
 Qed.
+
+(** ** the machine arithmetic of the shortcut *)
+
+(** [diffbits] and [fixed] as the code computes them *)
+Definition diffbits_of (h idx : Z) : Z := i32 (32 - i32 (lz32 (u32 (Z.lxor (i32 (idx - h)) idx)))).
+Definition fixed_of (h idx : Z) : Z := i32 (i32 (h + 1) - diffbits_of h idx).
+
+Lemma shortcut_unfold h idx mask :
+  shortcut h idx mask =
+  if 4 <? h then
+    if 0 <? fixed_of h idx then
+      let m := u64 (shl64 mask 1 - shl64 c01 (uint_of_i32 (diffbits_of h idx))) in
+      (Z.land (idxword idx) m,
+       i32 (i32 (Z.land idx (i32 (not64 m)) - fixed_of h idx)
+            + i32 (popcount (u32 (Z.land idx (i32 m))))),
+       shr64 mask (uint_of_i32 (fixed_of h idx)))
+    else (0, idx, mask)
+  else (0, idx, mask).
+Proof. reflexivity. Qed.
+
+(** index < height: index - height is negative, the xor has bit 31, nothing is fixed *)
+Lemma fixed_of_small h idx : 0 <= h <= 30 -> 0 <= idx < h -> (0 <? fixed_of h idx) = false.
+Proof.
+  intros Hh Hi.
+  assert (F : forallb (fun h => forallb (fun i => negb (0 <? fixed_of (Z.of_nat h) (Z.of_nat i))) (seq 0 h))
+                (seq 0 31) = true) by (vm_compute; reflexivity).
+  rewrite forallb_forall in F. specialize (F (Z.to_nat h) ltac:(apply in_seq; lia)).
+  rewrite forallb_forall in F. specialize (F (Z.to_nat idx) ltac:(apply in_seq; lia)).
+  rewrite !Z2Nat.id in F by lia. now apply negb_true_iff in F.
+Qed.
+
+(** index >= height: diffbits is the bit length of (index - height) xor index *)
+Lemma diffbits_of_eq h idx : 0 <= h <= 30 -> h <= idx < 2 ^ 31 ->
+  diffbits_of h idx = bitlen (Z.lxor (idx - h) idx) /\ fixed_of h idx = h + 1 - bitlen (Z.lxor (idx - h) idx)
+  /\ 0 <= Z.lxor (idx - h) idx < 2 ^ 31.
+Proof.
+  intros Hh Hi. unfold fixed_of, diffbits_of.
+  rewrite (i32_id (idx - h)) by lia.
+  pose proof (lxor_bound (idx - h) idx 31 ltac:(lia) ltac:(lia) ltac:(lia)) as HX.
+  set (x := Z.lxor (idx - h) idx) in *.
+  rewrite u32_id by lia. unfold lz32.
+  pose proof (bitlen_nonneg x). pose proof (bitlen_le x 31 ltac:(lia) HX).
+  rewrite (i32_id (32 - bitlen x)) by lia.
+  replace (32 - (32 - bitlen x)) with (bitlen x) by lia.
+  rewrite (i32_id (bitlen x)) by lia. rewrite (i32_id (h + 1)) by lia.
+  rewrite i32_id by lia. auto.
+Qed.
+
+(** the mask of the fixed bits, in both halves *)
+Lemma m_eq h d : (h <= 30)%nat -> 0 <= d <= Z.of_nat h ->
+  u64 (shl64 (maskAt h) 1 - shl64 c01 (uint_of_i32 d))
+  = (2 ^ (Z.of_nat h + 1) - 2 ^ d) * 2 ^ 32 + (2 ^ (Z.of_nat h + 1) - 2 ^ d).
+Proof.
+  intros Hh Hd. pose proof (pow2_le_30 h Hh).
+  assert (0 < 2 ^ d <= 2 ^ Z.of_nat h) by (split; [apply pow2_pos|apply pow2_le]; lia).
+  unfold uint_of_i32. rewrite (u64_id d) by lia.
+  unfold maskAt, c01. change 0x0100000001 with (2 ^ 32 + 1).
+  rewrite pow2_succ by lia.
+  rewrite shl64_small by (change (2 ^ 1) with 2; lia).
+  rewrite shl64_small by lia.
+  change (2 ^ 1) with 2. rewrite u64_id by lia. lia.
+Qed.
+
+Lemma i32_word_lo ml : 0 <= ml < 2 ^ 31 -> i32 (ml * 2 ^ 32 + ml) = ml.
+Proof.
+  intros H. rewrite <- i32_u32. unfold u32. rewrite mod_hi_lo by lia. apply i32_id. lia.
+Qed.
+
+Lemma i32_not_word_lo ml : 0 <= ml < 2 ^ 31 -> i32 (not64 (ml * 2 ^ 32 + ml)) = -1 - ml.
+Proof.
+  intros H. unfold not64.
+  replace (2 ^ 64 - 1 - (ml * 2 ^ 32 + ml)) with ((2 ^ 32 - 1 - ml) * 2 ^ 32 + (2 ^ 32 - 1 - ml)) by lia.
+  rewrite <- i32_u32. unfold u32. rewrite mod_hi_lo by lia. rewrite i32_hi by lia. lia.
+Qed.
+
+Lemma p2_fixed_eq idx ml : 0 <= idx < 2 ^ 31 -> 0 <= ml < 2 ^ 31 ->
+  Z.land (idxword idx) (ml * 2 ^ 32 + ml) = Z.land idx ml * 2 ^ 32 + ml.
+Proof.
+  intros Hi Hm. rewrite idxword_eq by lia. rewrite land_halves by lia. f_equal.
+  rewrite Z.land_comm. change (2 ^ 32 - 1) with (Z.ones 32). rewrite Z.land_ones by lia.
+  apply Z.mod_small. lia.
+Qed.
+
+(** what the shortcut must establish for the loop to take over *)
+Definition sc_ok (h : nat) (idx : Z) (r : Z * Z * Z) : Prop :=
+  exists c q0 idx', (c <= h)%nat /\ length q0 = (h - c)%nat /\
+    0 <= idx' < 2 ^ (Z.of_nat c + 1) - 1 /\
+    r = (p2At h c (val_msb q0), idx', maskAt c) /\
+    node_at h idx = q0 ++ node_at c idx'.
+
+Lemma sc_ok_none h idx : 0 <= idx < 2 ^ (Z.of_nat h + 1) - 1 -> sc_ok h idx (0, idx, maskAt h).
+Proof.
+  intros Hi. exists h, [], idx. repeat split; try lia.
+  - cbn [length]. lia.
+  - unfold p2At. rewrite val_msb_nil, Nat.sub_diag. change (2 ^ Z.of_nat 0) with 1.
+    do 2 f_equal. lia.
+Qed.
+
+Lemma shortcut_spec h idx : (h <= 30)%nat -> 0 <= idx < 2 ^ (Z.of_nat h + 1) - 1 ->
+  sc_ok h idx (shortcut (Z.of_nat h) idx (maskAt h)).
+Proof.
+  intros Hh Hi. rewrite shortcut_unfold.
+  assert (H31 : 2 ^ (Z.of_nat h + 1) <= 2 ^ 31) by (apply pow2_le; lia).
+  destruct (Z.ltb_spec 4 (Z.of_nat h)) as [H4|]; [|now apply sc_ok_none].
+  destruct (Z.lt_ge_cases idx (Z.of_nat h)) as [Hs|Hs].
+  { rewrite fixed_of_small by lia. now apply sc_ok_none. }
+  destruct (diffbits_of_eq (Z.of_nat h) idx ltac:(lia) ltac:(lia)) as (ED & EF & HX).
+  rewrite EF, ED.
+  set (x := Z.lxor (idx - Z.of_nat h) idx) in *. set (d := bitlen x) in *.
+  destruct (Z.ltb_spec 0 (Z.of_nat h + 1 - d)) as [Hf|]; [|now apply sc_ok_none].
+  (* the shortcut is taken *)
+  assert (Hx0 : x <> 0). { unfold x. intros E. apply Z.lxor_eq in E. lia. }
+  assert (Hd1 : 1 <= d) by (apply bitlen_pos; lia).
+  assert (Hxd : x < 2 ^ d) by (apply lt_pow2_bitlen; lia).
+  assert (HA : (idx - Z.of_nat h) / 2 ^ d = idx / 2 ^ d)
+    by (apply lxor_small_same_high; try lia; exact Hxd).
+  set (c := Z.to_nat (d - 1)). set (k := (h - c)%nat).
+  assert (Hc : Z.of_nat c + 1 = d) by (unfold c; lia).
+  assert (Hk : Z.of_nat k = Z.of_nat h + 1 - d) by (unfold k, c; lia).
+  assert (HD : 0 < 2 ^ d) by (apply pow2_pos; lia).
+  assert (HKD : 2 ^ Z.of_nat k * 2 ^ d = 2 ^ (Z.of_nat h + 1)).
+  { rewrite <- Z.pow_add_r by lia. f_equal. lia. }
+  pose proof (Z.div_mod idx (2 ^ d) ltac:(lia)) as Edm.
+  pose proof (Z.mod_pos_bound idx (2 ^ d) HD) as Hlow.
+  pose proof (Z.div_mod (idx - Z.of_nat h) (2 ^ d) ltac:(lia)) as Edm'.
+  pose proof (Z.mod_pos_bound (idx - Z.of_nat h) (2 ^ d) HD) as Hlow'.
+  rewrite HA in Edm'.
+  set (A := idx / 2 ^ d) in *. set (low := idx mod 2 ^ d) in *.
+  assert (HlowH : Z.of_nat h <= low) by lia.
+  assert (HA0 : 0 <= A) by (apply Z.div_pos; lia).
+  assert (HAK : A < 2 ^ Z.of_nat k).
+  { apply Z.div_lt_upper_bound; [lia|]. rewrite Z.mul_comm, HKD. lia. }
+  set (q0 := rev (bits k A)).
+  assert (Hq0 : length q0 = k) by (unfold q0; rewrite rev_length; apply bits_length).
+  assert (HvA : val_msb q0 = A) by (apply val_msb_rev_bits; lia).
+  set (ml := 2 ^ (Z.of_nat h + 1) - 2 ^ d).
+  assert (Hml : 0 <= ml < 2 ^ 31).
+  { unfold ml. assert (2 ^ d <= 2 ^ (Z.of_nat h + 1)) by (apply pow2_le; lia). lia. }
+  rewrite m_eq by lia. fold ml. cbn zeta.
+  rewrite i32_word_lo, i32_not_word_lo, p2_fixed_eq by lia.
+  unfold ml at 1 3. rewrite land_pow2_diff, land_compl_pow2_diff by lia. fold A low.
+  assert (HAD : 0 <= A * 2 ^ d <= idx) by nia.
+  rewrite (u32_id (A * 2 ^ d)) by lia.
+  replace (popcount (A * 2 ^ d)) with (count_true q0).
+  2:{ rewrite <- Hc. replace (Z.of_nat c + 1) with (Z.of_nat (S c)) by lia.
+      rewrite popcount_mul_pow2 by lia. rewrite <- HvA. symmetry. apply popcount_val_msb. }
+  pose proof (count_true_nonneg q0). pose proof (count_true_le_length q0).
+  destruct (node_at_fixed q0 c low) as [EN RN].
+  { rewrite Hq0, Hc. lia. }
+  { rewrite HvA, Hc, Hq0. replace (c + k)%nat with h by (unfold k, c; lia). lia. }
+  rewrite HvA, Hc, Hq0 in EN. replace (c + k)%nat with h in EN by (unfold k, c; lia).
+  replace (A * 2 ^ d + low) with idx in EN by lia.
+  rewrite Hq0, Hc in RN.
+  exists c, q0, (low - (Z.of_nat k - count_true q0)).
+  split; [unfold k, c; lia|]. split; [exact Hq0|]. split; [rewrite Hc; exact RN|]. split; [|exact EN].
+  f_equal; [f_equal|].
+  - (* p2 *)
+    unfold p2At. rewrite HvA, Hc. fold k. unfold ml. rewrite <- HKD. lia.
+  - (* index *)
+    rewrite (i32_id (low - _)) by lia. rewrite (i32_id (count_true q0)) by lia.
+    rewrite i32_id by lia. lia.
+  - (* mask *)
+    unfold uint_of_i32. rewrite u64_id by lia. rewrite shr64_div by lia. rewrite <- Hk.
+    unfold maskAt. replace (2 ^ Z.of_nat h) with (2 ^ Z.of_nat c * 2 ^ Z.of_nat k).
+    2:{ rewrite <- Z.pow_add_r by lia. f_equal. unfold k, c. lia. }
+    rewrite Z.mul_assoc. apply Z.div_mul. pose proof (pow2_pos (Z.of_nat k)). lia.
+Qed.
